@@ -58,7 +58,23 @@ def _rule_large_rotation(verdict, scn):
             and float(d.get("min_det") or 0.0) > 0.0)
 
 
+def _rule_large_rotation_F(verdict, scn):
+    """F error marginally over the bound for an update (or history) that turns through more
+    than 6 rad of rigid rotation: the statement's bound grows with the number of updates and
+    the strain, LSODA's error in F (rtol 1e-6) grows with the rotation angle.  Gross errors
+    (> 5x the bound) are NOT matched; only when the solver ran."""
+    d = verdict.get("detail") or {}
+    if int(d.get("solver_steps") or 0) < 1:
+        return False
+    if verdict["property"] == "C07" and "F does not follow" not in str(d.get("what")):
+        return False
+    rot = d.get("rigid_rotation_call_rad", d.get("rigid_rotation_total_rad"))
+    return (rot is not None and float(rot) > 6.0
+            and float(d.get("rel") or 1e9) <= 5.0 * float(d.get("bound") or 0.0))
+
+
 RULES = {
+    "large_rigid_rotation_F": _rule_large_rotation_F,
     "large_rigid_rotation": _rule_large_rotation,
     "contracting_map": _rule_contracting_map,
     "compact_support_stepped_over": _rule_compact_support,
